@@ -84,7 +84,10 @@ theorem tplWrites_frame (pre t suf : Bytes) (noesc : Bool) : FrameOK (fun s => t
 theorem sepWrite_frame (n : Nat) (sep : Bytes) : FrameOK (fun s => sepWrite n sep s) := by
   unfold sepWrite
   by_cases h : (n > 0 && !sep.isEmpty) = true
-  · simp only [h, if_true]; exact write_frame _
+  · simp only [h, if_true]
+    intro s hs
+    have hw := write_frame (regionEscape s.c sep) s hs
+    exact ⟨hw.1, fun pl po k => hw.2 pl po k⟩
   · simp only [h, Bool.false_eq_true, if_false]; exact FrameOK.ok_
 
 /-! ### Loops -/
